@@ -24,6 +24,7 @@ TECHNIQUE = 'small-scope exhaustive enumeration of key sets and insertion orders
 RULE += ' Per map additionally: HashMap.parse with key deserialisers (identity on the bit string - must receive exactly `width` bits -, signed integer), and an optional dictionary as one field among others: store_dict, store_dict, store_ref, 3 bits -> load_dict, load_dict, load_ref, load_uint.'
 ASSUMPTIONS = ['keys wider than 4 bits are covered by divergence patterns, not all subsets']
 NOT_ASSERTED = ['behaviour of value serialisers on values they cannot encode']
+RULE += ' Sixth session: edits through the public .map after serialize() (item assignment, pop, clear, a new dict) and serialize() again; key FORMS longer than the key (bit strings of more than width characters, byte strings of more whole bytes than the width needs) are refused; bad keys written into the map after it was serialised once (three routes).'
 
 
 def BOUNDS(tier):
@@ -613,6 +614,36 @@ def shard_badkeys(rec):
             rec.outcome('refused')
             continue
         rec.violation('badkey:anycast-address', f'two distinct addresses with anycast ({depth}, {pfx}) were accepted as keys of a 267-bit map and occupy {len(hm.map)} key(s)', 'shard_badkeys', {})
+    # ... also when the plain address of the same account was a key before (in this or in another map), and when ONE Address object is used as a
+    # key, given anycast info by its owner, and used again (wave 9: a conversion memo keyed by the address, whose equality ignores anycast)
+    for n_, (depth, pfx) in enumerate(((1, 0), (7, 99), (30, 1))):
+        for scenario in ('plain-twin-first', 'plain-twin-other-map', 'same-object-edited'):
+            rec.case('badkey-anycast')
+            acc = filler(rec.seed, f'c09-anycast-{n_}-{scenario}', 32)
+            plain = Address((0, acc))
+            hm = HashMap(267).with_uint_values(8)
+            try:
+                if scenario == 'plain-twin-first':
+                    hm.set(plain, 1)
+                    bad = Address((0, acc))
+                elif scenario == 'plain-twin-other-map':
+                    HashMap(267).with_uint_values(8).set(plain, 1).serialize()
+                    bad = Address((0, acc))
+                else:
+                    hm.set(plain, 1)
+                    bad = plain
+                bad.set_anycast(depth, pfx)
+            except Exception as e:
+                rec.violation('badkey:anycast-setup', f'a plain address key was refused: {exc_name(e)}: {e}', 'shard_badkeys', {})
+                continue
+            rec.trans()
+            try:
+                hm.set(bad, 2)
+            except Exception:
+                rec.outcome('refused')
+                continue
+            rec.violation('badkey:anycast-address', f'an address with anycast ({depth}, {pfx}) was accepted as a key of a 267-bit map ({scenario}: the plain address of the same '
+                          f'account had been used as a key before); the map holds {len(hm.map)} key(s)', 'shard_badkeys', {})
     rec.sample({'width': 8, 'bad_keys': [256, 257, -1, -256], 'expect': 'refused, map unchanged'})
 
 
